@@ -793,8 +793,6 @@ impl Overlay {
 
         let _write_guard = nomt.access_lock.write();
 
-        let marker = self.mark_committed();
-
         {
             let mut shared = nomt.shared.lock();
             if shared.root != self.prev_root() {
@@ -805,7 +803,7 @@ impl Overlay {
                 );
             }
             shared.root = root;
-            shared.last_commit_marker = Some(marker);
+            shared.last_commit_marker = Some(self.mark_committed());
         }
 
         if let Some(rollback_delta) = rollback_delta {
@@ -851,8 +849,6 @@ impl Overlay {
             return Ok(Some(self));
         }
 
-        let marker = self.mark_committed();
-
         {
             let mut shared = nomt.shared.lock();
             if shared.root != self.prev_root() {
@@ -863,7 +859,7 @@ impl Overlay {
                 );
             }
             shared.root = root;
-            shared.last_commit_marker = Some(marker);
+            shared.last_commit_marker = Some(self.mark_committed());
         }
 
         if let Some(rollback_delta) = rollback_delta {
